@@ -9,7 +9,7 @@ from . import common, lib  # noqa
 from . import C13 as _c13  # noqa  (replace_token: whole NAME tokens only; list_tokens)
 
 P = Property('C03', 'other',
-             'Contracts on the real AST of EquationParser.CleanupRightHandSide, FindExactMatches and RebuildEquations: substitution rewrites right-hand sides '
+             'Contracts on the real AST of EquationParser.CleanupRightHandSide, FindExactMatches, RebuildEquations and MoveDecorative (what is set aside is referenced by no token list, its own included; nothing is lost or duplicated): substitution rewrites right-hand sides '
              'only (through replace_token, whole NAME tokens: C13), the set of variables and the order and names of the simultaneous equations are kept '
              '(nothing lost, duplicated or renamed), each simultaneous equation is the current text of its variable, initial conditions / lagged / '
              'exogenous / decorative lists are untouched, and a variable is only ever replaced by its target when its equation is exactly that one name '
@@ -17,7 +17,7 @@ P = Property('C03', 'other',
              'contract-based deductive verification: VCs generated from the real AST (pyvc), z3/cvc5; bounded differential',
              design_ref='DESIGN.md section 6, C03')
 P.trust('contracts of replace_token and list_tokens (verified in C13)', 'T-EVAL: replacing the whole-name tokens of a variable that equals another variable by that variable preserves the solutions')
-P.not_decided.append('MoveDecorative (partition of the names between simultaneous and decorative), the time-zero passes of SetInitialConditions and value-level equality of the '
+P.not_decided.append('the time-zero passes of SetInitialConditions and value-level equality of the '
                      'two runs: bounded, dyn/C03.py')
 P.replay_script = 'dyn/C03.py'
 
